@@ -412,6 +412,17 @@ func (fi *FuncInfo) MustCrossAtom(target ssa.Instruction, want Atom) GateResult 
 // load and the If), and (b) on no path from the gate edge to target that does
 // not re-evaluate the gate a field mentioned in the condition may be written.
 func (fi *FuncInfo) EdgeStable(e Edge, target ssa.Instruction) (bool, string) {
+	return fi.edgeStable(e, target, true)
+}
+
+// EdgeFresh is part (a) of EdgeStable only: the values the condition reads are
+// fresh at the branch. Used where the guard establishes a fact about the
+// moment of the check (the handler itself legitimately changes the state later).
+func (fi *FuncInfo) EdgeFresh(e Edge) (bool, string) {
+	return fi.edgeStable(e, nil, false)
+}
+
+func (fi *FuncInfo) edgeStable(e Edge, target ssa.Instruction, between bool) (bool, string) {
 	p := fi.P
 	p.buildStoreIdx()
 	a, ok := fi.EdgeAtom(e)
@@ -433,6 +444,9 @@ func (fi *FuncInfo) EdgeStable(e Edge, target ssa.Instruction) (bool, string) {
 		if bad := fi.writeOnPaths(li.Block(), instrIndex(li)+1, iff, nil, []*Expr{fi.Sym(ld)}); bad != "" {
 			return false, fmt.Sprintf("%s between the read of the guarded value and the guard [%s]", bad, a)
 		}
+	}
+	if !between {
+		return true, ""
 	}
 	start := e.From.Succs[e.Succ]
 	if bad := fi.writeOnPaths(start, 0, target, e.From, exprs); bad != "" {
@@ -956,4 +970,136 @@ func (fi *FuncInfo) LoopBodyMustCross(header *ssa.BasicBlock, pass func(Atom) bo
 		}
 	}
 	return GateResult{OK: true, Gates: gates}
+}
+
+// MustPassFeasible decides: every *feasible* path from entry to target
+// executes an instruction satisfying instrPass. Feasibility filter (E2/E3
+// bridge): along a path the atoms of the branches taken are pinned; a branch
+// whose atom contradicts a pinned atom over the same expressions is not taken;
+// pins are dropped at any instruction that may write what they read. This
+// removes the classic correlated-condition false alarm (`if n > 0 { defer }`
+// followed by `for n > 0 { ... }`).
+func (fi *FuncInfo) MustPassFeasible(target ssa.Instruction, instrPass func(ssa.Instruction) bool) GateResult {
+	p := fi.P
+	p.buildStoreIdx()
+	type pin struct {
+		a Atom
+	}
+	type state struct {
+		b    *ssa.BasicBlock
+		pins string
+	}
+	type item struct {
+		b    *ssa.BasicBlock
+		pins []Atom
+		path []string
+	}
+	key := func(pins []Atom) string {
+		var s []string
+		for _, a := range pins {
+			s = append(s, a.String())
+		}
+		sort.Strings(s)
+		return strings.Join(s, "&")
+	}
+	contradicts := func(pins []Atom, a Atom) bool {
+		for _, q := range pins {
+			if q.L == a.L && q.R == a.R {
+				// q true; a contradicts if q implies not a
+				if q.Implies(a.Negate()) {
+					return true
+				}
+			}
+		}
+		return false
+	}
+	pinnable := func(a Atom) bool {
+		for _, e := range []*Expr{a.LE, a.RE} {
+			if e == nil {
+				continue
+			}
+			bad := false
+			var rec func(x *Expr)
+			rec = func(x *Expr) {
+				if x == nil {
+					return
+				}
+				if x.Op == "call" || x.Op == "phi" || x.Op == "opaque" {
+					bad = true
+				}
+				for _, y := range x.Args {
+					rec(y)
+				}
+			}
+			rec(e)
+			if bad {
+				return false
+			}
+		}
+		return true
+	}
+	seen := map[state]bool{}
+	stack := []item{{b: fi.Fn.Blocks[0]}}
+	tb := target.Block()
+	steps := 0
+	for len(stack) > 0 {
+		it := stack[len(stack)-1]
+		stack = stack[:len(stack)-1]
+		st := state{it.b, key(it.pins)}
+		if seen[st] {
+			continue
+		}
+		seen[st] = true
+		steps++
+		if steps > 20000 {
+			return GateResult{OK: false, Witness: "path bound exceeded"}
+		}
+		pins := it.pins
+		passed := false
+		reached := false
+		for _, in := range it.b.Instrs {
+			if in == target {
+				reached = true
+				break
+			}
+			if instrPass(in) {
+				passed = true
+				break
+			}
+			// drop pins invalidated by this instruction
+			if len(pins) > 0 {
+				var keep []Atom
+				for _, q := range pins {
+					if p.mayWriteExprs(in, []*Expr{q.LE, q.RE}) == "" {
+						keep = append(keep, q)
+					}
+				}
+				pins = keep
+			}
+		}
+		if passed {
+			continue
+		}
+		if reached && it.b == tb {
+			return GateResult{OK: false, Witness: strings.Join(it.path, " ; ")}
+		}
+		for si, succ := range it.b.Succs {
+			if !FeasibleSucc(it.b, si) {
+				continue
+			}
+			np := pins
+			path := it.path
+			if a, ok := fi.EdgeAtom(Edge{it.b, si}); ok {
+				if contradicts(pins, a) {
+					continue
+				}
+				path = append(append([]string{}, it.path...), "["+a.String()+"]")
+				if pinnable(a) {
+					np = append(append([]Atom{}, pins...), a)
+				}
+			}
+			stack = append(stack, item{succ, np, path})
+		}
+	}
+	return GateResult{OK: true}
 }
